@@ -184,7 +184,7 @@ def gen_ops(rng, init, n, alphabet, interior_removal=True):
         elif kind == "append":
             op.update(delta=rng.choice([1, 1, 2, 0, -1, -3]), v=rng.choice([1, 2, 0, 4]), cpval=rng.random() < 0.25)
         elif kind == "extend":
-            op.update(delta=rng.choice([1, 2, 0, -2]), n=rng.randint(0, 3))
+            op.update(delta=rng.choice([1, 2, 0, -2]), n=rng.randint(0, 4), zmask=rng.choice([0, 0, 1, 2, 5, 15]))
         elif kind == "setitem":
             op.update(pos=rng.randint(-2, 6), v=rng.choice([1, 0, 9, -4]), cpval=rng.random() < 0.25)
         elif kind == "setitem_cp":
@@ -206,7 +206,9 @@ def gen_ops(rng, init, n, alphabet, interior_removal=True):
             if op["step"] < 0:      # a descending range
                 op["s"], op["e"] = max(op["s"], op["e"]) + 1, min(op["s"], op["e"]) - 1
         elif kind == "updateCoords":
-            op.update(fn=rng.choice(["shift", "double", "reverse", "neg"]), depth=rng.randint(0, max(0, depth - 1)))
+            # maps that move every coordinate, and maps that move one coordinate past its neighbours and leave the rest alone
+            op.update(fn=rng.choice(["shift", "double", "reverse", "neg", "move-one", "move-one", "swap-two"]), depth=rng.randint(0, max(0, depth - 1)),
+                      k=rng.randrange(8), to=rng.choice([-1, 1, 2, 3]))
         elif kind == "updatePayloads":
             op.update(fn=rng.choice(["inc", "box-inc", "zero", "same", "elem-op"]), depth=rng.randint(0, max(0, depth - 1)))
         elif kind == "coiter_read":
@@ -393,7 +395,9 @@ def apply_op(ctx, op):
             return "skip"
         mx = f.coords[-1] if f.coords else -1
         start = mx + op["delta"]
-        other = Fiber([start + i for i in range(op["n"])], [1 + i for i in range(op["n"])], default=d)
+        # the operand may hold explicit default-valued payloads (bits of zmask)
+        zm = op.get("zmask", 0)
+        other = Fiber([start + i for i in range(op["n"])], [(d if (zm >> i) & 1 and d is not None else 1 + i) for i in range(op["n"])], default=d)
         if op["n"] and f.coords and start <= mx:
             try:
                 f.extend(other)
@@ -548,6 +552,22 @@ def apply_op(ctx, op):
             return "skip"
         if not f.coords:
             return "skip"
+        if fn in ("move-one", "swap-two"):
+            # the coordinate at one index jumps past `to` neighbours (landing in a gap beyond them); "swap-two": two adjacent
+            # coordinates trade places.  Indices are those of the fibers at the updated depth.
+            kk, to = op.get("k", 0), op.get("to", 1)
+
+            def mv(i, c, p, kk=kk, to=to, fn=fn):
+                if not isinstance(c, int):
+                    return c
+                if fn == "swap-two":
+                    return c + 1001 if i == kk % 3 else (c + 1000 if i == kk % 3 + 1 else c + 1000 * (i > kk % 3 + 1) * 2)
+                return c + 1000 * to + 1 if i == kk % 3 else c
+            # coordinates are spread first so that the jump lands strictly between / beyond other coordinates (no collisions)
+            f.updateCoords(lambda i, c, p: c * 1000 if isinstance(c, int) else c, depth=dd)
+            H.quiescent("updateCoords:spread", ctx)
+            f.updateCoords(mv, depth=dd)
+            return
         f.updateCoords(fns[fn], depth=dd)
         return
     if kind == "updatePayloads":
